@@ -57,7 +57,8 @@ PROPS["C19"] = {
     "theorems": ["c19_save_atomic", "c19_failed_save_keeps_old", "c19_flush_before_visible", "c19_visible_only_when_flushed",
                  "c19_delete_atomic", "c19_list_subset_loadable", "c19_listed_iff_loadable", "c19_frame", "c19_interleavings_commute",
                  "c19_concurrent_atomic", "c19_names", "c19_saved_is_listed", "c19_checker_sound_view", "c19_checker_sound_save_kill",
-                 "c19_big_closed_form"],
+                 "c19_big_closed_form", "c19_disciplined_atomic", "c19_disciplined_no_rename_keeps_old", "c19_chunked_save_atomic",
+                 "c19_model_is_disciplined", "c19_tie_class_atomic", "c19_tie_class_failed_keeps_old"],
     "partial": [],
     "rule": "helper child (plain harness binary, real FileSystem code) under strace; scenarios: first write/overwrite x buffer splits "
             "(12 B .. 4 KiB literal) with other keys and spool leftovers in the directory; per scenario SIGKILL at the entry of every store "
